@@ -6,7 +6,10 @@
 //! with `refmodel::ref_dialog`, which builds the dialog from the *texts* of request and response.
 //!
 //! Generated (sub `uas`, `uac`): the dialog shape (0..4 Record-Route values on one or several lines, tags,
-//! Contact / From / To forms), the way through the API (bare dialog + transaction, or Acceptor / Initiator +
+//! Contact / From / To forms; a Record-Route entry is a proxy of its own or RELATED to its predecessor / the entry
+//! before that: the identical URI again (spiral), the same address with another `transport` or another parameter
+//! (RFC 5658 double Record-Route), the same host with another port / user / scheme - see `g_rr`; the route set is
+//! the whole list whatever neighbours have in common), the way through the API (bare dialog + transaction, or Acceptor / Initiator +
 //! Session), 1..10 created requests (optionally from 4 OS threads), Session::terminate, the session-refresh
 //! re-INVITE + ACK, and - UAC only - the HISTORY of the builder before and besides the dialog:
 //!   * `prior`: 0..3 earlier attempts of the INVITE through the same `Initiator` / `ClientDialogBuilder`, each
@@ -27,6 +30,17 @@
 //!     ...), another user part, another port, or an unrelated URI; the 1xx's Record-Route list is the 2xx's,
 //!     its reverse, a prefix, a superset, absent, or unrelated.  The reference dialog is built from the 2xx
 //!     alone (RFC 3261 13.2.2.4: remote target and route set are recomputed from the 2xx).
+//!   * `early` (`ClientDialogBuilder`, half of the cases): before the 2xx another branch of the forked INVITE sends a
+//!     101-199 with a To-tag of its own, a Contact and a Record-Route list: an EARLY dialog (never confirmed) whose
+//!     `Dialog` the application gets from `create_dialog_from_response`.  0..3 further reliable provisional
+//!     responses follow inside it; each carries the dialog's Contact, the same address with other URI parameters /
+//!     user / port, an unrelated Contact or none, and the dialog's Record-Route list or another one.  The
+//!     application acknowledges every reliable response through the public helper
+//!     `invite::prack::create_prack(&dialog, &mut that_response, rseq)` and creates 0..2 (+1 per response) other
+//!     requests (BYE/INFO/PRACK/UPDATE/MESSAGE) with `create_request`.  The reference dialog is built from the
+//!     INVITE and the 1xx that CREATED the early dialog (RFC 3261 12.1.2); a later provisional response is no
+//!     target refresh (12.2.1.2), so all of these requests follow that dialog state, CSeq above the INVITE's and
+//!     increasing.
 //! and - both roles, wherever a `Session` exists - TRANSPORT TROUBLE while ezk itself creates and sends a request
 //! inside the dialog (`SendFault`): the `Transport::send` call for the BYE of `Session::terminate()` (0..2
 //! calls in a row) or for the refresh re-INVITE of `RefreshNeeded::process_default()` stays pending for a while
@@ -41,7 +55,11 @@
 //! Oracle: `RefDialog::check_request` (Call-ID, From/To URI + tag, Request-URI, Route, Max-Forwards) per created
 //! request, `CSeqTracker` over the requests of one dialog in creation order (per thread for the threaded block),
 //! `ref_dialog::check_response` per response of the UAS.  A failure found in both dialogs of a fork is reported
-//! once; one found only in the second dialog gets `uac-fork-` in its signature.  A first request that is not
+//! once; one found only in the second dialog gets `uac-fork-` in its signature, one found only in the early dialog
+//! of another branch `uac-early-`; there a PRACK whose Request-URI / Route is what the response it acknowledges
+//! would yield (instead of the dialog state) is named `prack-request-uri-is-contact-of-acknowledged-1xx` /
+//! `prack-route-is-record-route-of-acknowledged-1xx`.  A Route that is the route set with entries left out is
+//! named `route-entries-missing` (see `ref_dialog`).  A first request that is not
 //! above the creating INVITE is named `first-not-above-renumbered-invite` when an earlier attempt of that INVITE
 //! carried another number (the counter evidently did not follow the repetition), `first-not-above-invite` otherwise.
 //! The CSeq sequence that is judged consists of the requests that reached the wire plus the ones the threads
@@ -53,7 +71,10 @@
 //! Call-ID / From-tag, what happens to the early dialogs of a rejected attempt), the ACKs the transaction layer
 //! sends for the rejections (they share the INVITE's branch and are not "created inside a dialog"), any relation
 //! between the CSeq numbers of the two dialogs of a fork, display names, the Contact of created requests, the
-//! strict-routing rewrite (both forms accepted), requests inside unconfirmed early dialogs (C13), what
+//! strict-routing rewrite (both forms accepted), requests inside an early dialog that a 2xx later confirms (the
+//! `Initiator` keeps that `Dialog` to itself; with `ClientDialogBuilder` the application would own two `Dialog`
+//! objects for one dialog - not generated, the early dialog of `early` belongs to a branch that never answers 2xx),
+//! the RAck header of a PRACK, any relation between the CSeq numbers of the early and the confirmed dialog, what
 //! `terminate()` / `process_default()` return after a failed send beyond "an error", the number of the request
 //! whose send failed, URI headers (`?h=v`) in a Contact (not generated).
 
@@ -166,7 +187,7 @@ pub struct UacCase {
     pub local_contact_display: Option<String>,
     pub local_contact_uri: String,
     pub target: String,
-    /// provisional responses of the peer (without To-tag: early dialogs are C13's subject)
+    /// provisional responses of the peer (`ClientDialogBuilder` flow: without To-tag; `Initiator` flow: see `early_flow`)
     pub peer_provisionals: Vec<u16>,
     pub code: u16,
     pub to_tag: String,
@@ -198,9 +219,52 @@ pub struct UacCase {
     /// pending and fails (the application then runs `process_default` again) or succeeds late
     #[serde(default)]
     pub refresh_fault: Option<SendFault>,
+    /// `ClientDialogBuilder` only: before the 2xx, another branch of the forked INVITE answers with provisional
+    /// responses that carry a To-tag of their own: an EARLY dialog (never confirmed) in which the application
+    /// acknowledges reliable provisional responses with PRACK and creates other requests, see `EarlyDialog`
+    #[serde(default)]
+    pub early: Option<EarlyDialog>,
     pub ops: Ops,
     pub rng: u8,
 }
+
+/// An early dialog of the UAC (RFC 3261 12.1.2: created by a 101-199 response with a To-tag; remote target = the
+/// Contact of THAT response, route set = its Record-Route list reversed) and what happens inside it.
+#[derive(Serialize, Deserialize, Clone, Debug, Hash)]
+pub struct EarlyDialog {
+    /// the response that creates it (101..=199)
+    pub code: u16,
+    /// differs from the To-tags of the 2xx (and of the second 2xx of a fork) by construction
+    pub to_tag: String,
+    pub contact: String,
+    pub rr: Vec<String>,
+    /// the creating response is sent reliably (Require: 100rel, RSeq) and acknowledged through `create_prack`
+    pub reliable: bool,
+    /// RSeq of the first reliable response of the dialog (the following ones count up)
+    pub rseq: u16,
+    /// further reliable provisional responses inside the early dialog, each acknowledged through
+    /// `invite::prack::create_prack(&dialog, &mut that_response, rseq)`
+    pub later: Vec<LaterProv>,
+    /// requests created in the early dialog after the last PRACK (indices into METHODS; INVITE is replaced by UPDATE)
+    pub methods: Vec<u8>,
+}
+
+/// A reliable provisional response inside an existing early dialog (same To-tag).  It is no target refresh: remote
+/// target and route set of the dialog stay what the dialog-creating response made them (RFC 3261 12.2.1.2, 12.1.2).
+#[derive(Serialize, Deserialize, Clone, Debug, Hash)]
+pub struct LaterProv {
+    pub code: u16,
+    /// its Contact as a function of the Contact that created the dialog: kinds of `early_contact_value`
+    /// (0 unrelated, 1 the same value, 2..7 same address with other parameters / user / port), `NO_CONTACT` = none
+    pub contact: u8,
+    /// its Record-Route list as a function of the dialog-creating one: kinds of `early_rr_values`
+    pub rr: u8,
+    /// a request the application creates in the early dialog just before this response arrives (index into METHODS)
+    pub before: Option<u8>,
+}
+
+/// `LaterProv::contact`: the response carries no Contact
+pub const NO_CONTACT: u8 = EARLY_CONTACT_KINDS;
 
 /// one INVITE attempt that the peer rejected (the application then repeats the INVITE, as
 /// `examples/send_invite.rs` does after a 401)
@@ -380,7 +444,21 @@ fn g_contact_wire() -> BoxedStrategy<String> {
         .boxed()
 }
 
-/// 0..4 Record-Route values with distinct URIs; mostly loose routers
+/// number of ways an entry of a Record-Route list can be related to an earlier entry, see `g_rr`
+pub const RR_RELATIONS: u8 = 7;
+
+/// 0..4 Record-Route values; mostly loose routers.  An entry is either a proxy of its own (host carries the
+/// index of the entry, so its URI differs from every other entry's) or - about every third entry behind the
+/// first - RELATED to an earlier entry of the list (its predecessor, or the entry before that: a spiral through
+/// another proxy), the way entries of real lists are:
+///   1 the very same URI again (a request that spirals through one proxy twice)
+///   2 the same address, `transport` parameter of the other value / present on one side only (a proxy that
+///     switches transports records itself twice, RFC 5658 section 6)
+///   3 the same address, another parameter added or removed
+///   4 the same host, another port (two listeners of one proxy)        5 the same host:port, another user part
+///   6 the same address under the other scheme (sip / sips double Record-Route, RFC 5658 section 6)
+/// RFC 3261 12.1.1 / 12.1.2: the route set is the LIST of Record-Route values, every entry counts, whatever it
+/// has in common with its neighbours.
 fn g_rr() -> BoxedStrategy<Vec<String>> {
     let entry = (
         prop_oneof![6 => Just("sip"), 1 => Just("sips")],
@@ -392,44 +470,88 @@ fn g_rr() -> BoxedStrategy<Vec<String>> {
         prop_oneof![5 => Just(""), 1 => Just(";rr-p=1")],
         prop_oneof![6 => Just(None), 1 => Just(Some("\"P, x\"".to_string()))],
         any::<bool>(),
+        // relation to an earlier entry (0 = none), and whether that entry is the one before the predecessor
+        (prop_oneof![12 => Just(0u8), 7 => 1u8..RR_RELATIONS], prop_oneof![4 => Just(false), 1 => Just(true)]),
     );
     let count = prop_oneof![2 => Just(0usize), 2 => Just(1usize), 3 => Just(2usize), 2 => Just(3usize), 2 => Just(4usize)];
     (count, prop::collection::vec(entry, 4))
         .prop_map(|(n, entries)| {
-            entries
-                .into_iter()
-                .take(n)
-                .enumerate()
-                .map(|(i, (scheme, user, hk, port, lr, params, hparam, display, lr_first))| {
-                    // host carries the index: URIs are distinct by construction
-                    let host = match hk {
-                        0 => format!("p{i}.example.com"),
-                        1 => format!("198.51.100.{}", i + 1),
-                        2 => format!("[2001:db8::{}]", i + 1),
-                        _ => format!("edge-{i}.proxy.example.net"),
-                    };
-                    let mut uri = format!("{scheme}:");
-                    if let Some(u) = user {
-                        uri.push_str(&u);
-                        uri.push('@');
-                    }
-                    uri.push_str(&host);
-                    if let Some(p) = port {
-                        uri.push_str(&format!(":{p}"));
-                    }
+            // (scheme, user, host, port, params in order incl. lr)
+            struct Parts {
+                scheme: String,
+                user: Option<String>,
+                host: String,
+                port: Option<u16>,
+                params: Vec<String>,
+            }
+            let mut done: Vec<Parts> = vec![];
+            let mut out = vec![];
+            for (i, (scheme, user, hk, port, lr, params, hparam, display, lr_first, (rel, back))) in entries.into_iter().take(n).enumerate() {
+                // host carries the index: the URIs of unrelated entries are distinct by construction
+                let host = match hk {
+                    0 => format!("p{i}.example.com"),
+                    1 => format!("198.51.100.{}", i + 1),
+                    2 => format!("[2001:db8::{}]", i + 1),
+                    _ => format!("edge-{i}.proxy.example.net"),
+                };
+                let mut plist: Vec<String> = params.iter().map(|p| p.to_string()).collect();
+                if !lr.is_empty() {
                     if lr_first {
-                        uri.push_str(lr);
-                        uri.push_str(&params.concat());
+                        plist.insert(0, lr.to_string());
                     } else {
-                        uri.push_str(&params.concat());
-                        uri.push_str(lr);
+                        plist.push(lr.to_string());
                     }
-                    match display {
-                        Some(d) => format!("{d} <{uri}>{hparam}"),
-                        None => format!("<{uri}>{hparam}"),
+                }
+                let mut parts = Parts {
+                    scheme: scheme.to_string(),
+                    user,
+                    host,
+                    port,
+                    params: plist,
+                };
+                if rel != 0 && i > 0 {
+                    let r = &done[if back && i >= 2 { i - 2 } else { i - 1 }];
+                    parts = Parts {
+                        scheme: r.scheme.clone(),
+                        user: r.user.clone(),
+                        host: r.host.clone(),
+                        port: r.port,
+                        params: r.params.clone(),
+                    };
+                    match rel {
+                        1 => {}
+                        2 => match parts.params.iter().position(|p| p.starts_with(";transport=")) {
+                            Some(at) => parts.params[at] = ";transport=udp".to_string(),
+                            None => parts.params.insert(0, ";transport=tcp".to_string()),
+                        },
+                        3 => match parts.params.iter().position(|p| p.starts_with(";x-id=") || p.starts_with(";ftag=")) {
+                            Some(at) => {
+                                parts.params.remove(at);
+                            }
+                            None => parts.params.push(";x-leg=2".to_string()),
+                        },
+                        4 => parts.port = Some(if parts.port == Some(5072) { 5074 } else { 5072 }),
+                        5 => parts.user = Some(if parts.user.as_deref() == Some("leg2") { "leg3".to_string() } else { "leg2".to_string() }),
+                        _ => parts.scheme = if parts.scheme == "sip" { "sips".to_string() } else { "sip".to_string() },
                     }
-                })
-                .collect()
+                }
+                let mut uri = format!("{}:", parts.scheme);
+                if let Some(u) = &parts.user {
+                    uri.push_str(u);
+                    uri.push('@');
+                }
+                uri.push_str(&parts.host);
+                if let Some(p) = parts.port {
+                    uri.push_str(&format!(":{p}"));
+                }
+                uri.push_str(&parts.params.concat());
+                out.push(match display {
+                    Some(d) => format!("{d} <{uri}>{hparam}"),
+                    None => format!("<{uri}>{hparam}"),
+                });
+                done.push(parts);
+            }
+            out
         })
         .boxed()
 }
@@ -679,6 +801,55 @@ fn g_fork() -> BoxedStrategy<Option<Fork>> {
     .boxed()
 }
 
+/// An early dialog of another branch, with 0..3 further reliable provisional responses (half of the cases)
+fn g_early() -> BoxedStrategy<Option<EarlyDialog>> {
+    let code = || prop_oneof![2 => Just(180u16), 2 => Just(183u16), 1 => 101u16..200];
+    let later = (
+        code(),
+        prop_oneof![2 => Just(1u8), 1 => Just(NO_CONTACT), 8 => 0u8..EARLY_CONTACT_KINDS],
+        prop_oneof![3 => Just(1u8), 3 => 0u8..EARLY_RR_KINDS],
+        prop_oneof![3 => Just(None), 1 => (0u8..METHODS.len() as u8).prop_map(Some)],
+    )
+        .prop_map(|(code, contact, rr, before)| LaterProv { code, contact, rr, before });
+    prop_oneof![
+        1 => Just(None),
+        1 => (
+            code(),
+            g_tag(),
+            g_contact_wire(),
+            g_rr(),
+            prop_oneof![3 => Just(true), 1 => Just(false)],
+            1u16..=60000,
+            prop_oneof![
+                1 => Just(vec![]).boxed(),
+                3 => prop::collection::vec(later.clone(), 1..=1).boxed(),
+                2 => prop::collection::vec(later.clone(), 2..=2).boxed(),
+                1 => prop::collection::vec(later, 3..=3).boxed(),
+            ],
+            prop::collection::vec(0u8..METHODS.len() as u8, 0..=2),
+        )
+            .prop_map(|(code, to_tag, contact, rr, reliable, rseq, later, methods)| Some(EarlyDialog {
+                code,
+                to_tag,
+                contact,
+                rr,
+                reliable,
+                rseq,
+                later,
+                methods,
+            })),
+    ]
+    .boxed()
+}
+
+/// method of a request created inside an early dialog: a UAC sends no re-INVITE before the first one is answered
+fn early_method_of(i: u8) -> Method {
+    match method_of(i) {
+        Method::INVITE => Method::UPDATE,
+        m => m,
+    }
+}
+
 pub const EARLY_CONTACT_KINDS: u8 = 8;
 pub const EARLY_RR_KINDS: u8 = 6;
 
@@ -777,7 +948,7 @@ pub fn uac_strategy() -> BoxedStrategy<UacCase> {
     (
         (g_display_api(), g_fromto_uri(false)),
         g_local_contact(),
-        (any::<u16>(), g_prior(), g_fork()),
+        (any::<u16>(), g_prior(), g_fork(), g_early()),
         (
             prop::collection::vec(prop_oneof![Just(100u16), Just(180u16), Just(183u16)], 0..=2),
             prop_oneof![4 => Just(200u16), 1 => 200u16..300],
@@ -798,11 +969,21 @@ pub fn uac_strategy() -> BoxedStrategy<UacCase> {
         any::<u8>(),
     )
         .prop_map(
-            |((ld, lu), (lcd, lcu), (tsel, mut prior, mut fork), (peer_provisionals, code, to_tag, peer_contact), (rr, rr_layout), initiator, (refresh, refresh_fault), (mut ops, early_contact, early_rr), rng)| {
+            |((ld, lu), (lcd, lcu), (tsel, mut prior, mut fork, mut early), (peer_provisionals, code, to_tag, peer_contact), (rr, rr_layout), initiator, (refresh, refresh_fault), (mut ops, early_contact, early_rr), rng)| {
                 // the second branch of a fork is another UAS: its tag differs from the first one's
                 if let Some(f) = fork.as_mut() {
                     if f.to_tag == to_tag {
                         f.to_tag.push_str("-b2");
+                    }
+                }
+                // the early dialog belongs to a branch that never answers 2xx: a tag of its own; only the
+                // application that holds a `ClientDialogBuilder` gets at the `Dialog` of an early dialog
+                if initiator {
+                    early = None;
+                }
+                if let Some(e) = early.as_mut() {
+                    while e.to_tag == to_tag || fork.as_ref().map_or(false, |f| f.to_tag == e.to_tag) {
+                        e.to_tag.push_str("-e");
                     }
                 }
                 // a peer that uses one To-tag for the rejection and for the later 2xx (a stateless UAS derives its
@@ -847,6 +1028,7 @@ pub fn uac_strategy() -> BoxedStrategy<UacCase> {
                     early_contact,
                     early_rr,
                     refresh_fault: if refresh.is_some() { refresh_fault } else { None },
+                    early,
                     ops,
                     rng,
                 }
@@ -974,6 +1156,11 @@ pub struct Observed {
     pub after_failed_send: Option<usize>,
     /// refresh flow: positions (as above) of the refresh re-INVITE and of its ACK
     pub refresh_pos: Option<(usize, usize)>,
+    /// UAC, early dialog of another branch: the 1xx that created it
+    pub early_response: Option<WireMsg>,
+    /// ... and, per request created in it (they are the first requests after the INVITE attempts): the provisional
+    /// response a PRACK was created for through `create_prack` (`None`: a request from `create_request`)
+    pub early_created: Vec<Option<WireMsg>>,
     pub harness: Vec<String>,
 }
 
@@ -997,6 +1184,8 @@ impl Observed {
             failed_sends: 0,
             after_failed_send: None,
             refresh_pos: None,
+            early_response: None,
+            early_created: vec![],
             harness: vec![],
         }
     }
@@ -1497,6 +1686,100 @@ async fn terminate_flow(
     }
 }
 
+/// Contact / Record-Route / 100rel header lines of a provisional response inside (or creating) an early dialog
+fn early_lines(contact: Option<&str>, rr: &[String], rseq: Option<u32>) -> Vec<String> {
+    let mut extra = vec![];
+    if let Some(c) = contact {
+        extra.push(format!("Contact: {c}"));
+    }
+    extra.extend(rr_lines(rr, 0, "Record-Route"));
+    if let Some(n) = rseq {
+        extra.push("Require: 100rel".to_string());
+        extra.push(format!("RSeq: {n}"));
+    }
+    extra
+}
+
+/// The early dialog of another branch (`ClientDialogBuilder` flow): the peer's 1xx with a To-tag creates it, the
+/// application acknowledges every reliable provisional response of it through the public helper
+/// `invite::prack::create_prack(&dialog, &mut response, rseq)` and creates further requests with
+/// `Dialog::create_request`; everything is sent at once, so the wire holds the requests in creation order.
+#[allow(clippy::too_many_arguments)]
+async fn early_dialog_flow(
+    endpoint: &Endpoint,
+    tp: &TpHandle,
+    peer: SocketAddr,
+    invite_wire: &WireMsg,
+    cb: &mut ClientDialogBuilder,
+    tsx: &mut sip_core::transaction::ClientInvTsx,
+    e: &EarlyDialog,
+    keep: &mut Vec<Box<dyn Any>>,
+    obs: &mut Observed,
+) -> Option<Dialog> {
+    let mut rseq = e.rseq as u32;
+    // ---- the response that creates the dialog ----
+    let bytes = response_text(invite_wire, e.code, Some(&e.to_tag), &early_lines(Some(&e.contact), &e.rr, e.reliable.then_some(rseq)));
+    obs.early_response = WireMsg::parse(&bytes);
+    inject(endpoint, tp, peer, &bytes);
+    settle().await;
+    let mut first = match tokio::time::timeout(Duration::from_secs(1), tsx.receive()).await {
+        Ok(Ok(Some(r))) if r.line.code.into_u16() == e.code => r,
+        other => {
+            obs.harness.push(format!(
+                "peer sent {} with a To-tag, transaction delivered {:?}",
+                e.code,
+                other.map(|r| r.map(|o| o.map(|r| r.line.code.into_u16())).map_err(|e| e.to_string()))
+            ));
+            return None;
+        }
+    };
+    let dialog = match cb.create_dialog_from_response(&first) {
+        Ok(d) => d,
+        Err(err) => {
+            obs.harness.push(format!("create_dialog_from_response (early dialog): {err}"));
+            return None;
+        }
+    };
+    if e.reliable {
+        let req = sip_ua::invite::prack::create_prack(&dialog, &mut first, rseq);
+        send_created(endpoint, &dialog, req, keep, &mut obs.harness).await;
+        obs.early_created.push(WireMsg::parse(&bytes));
+        rseq += 1;
+    }
+    // ---- further reliable provisional responses inside the dialog ----
+    for l in &e.later {
+        if let Some(m) = l.before {
+            let req = dialog.create_request(early_method_of(m));
+            send_created(endpoint, &dialog, req, keep, &mut obs.harness).await;
+            obs.early_created.push(None);
+        }
+        let contact = (l.contact != NO_CONTACT).then(|| early_contact_value(l.contact, &e.contact));
+        let bytes = response_text(invite_wire, l.code, Some(&e.to_tag), &early_lines(contact.as_deref(), &early_rr_values(l.rr, &e.rr), Some(rseq)));
+        inject(endpoint, tp, peer, &bytes);
+        settle().await;
+        match tokio::time::timeout(Duration::from_secs(1), tsx.receive()).await {
+            Ok(Ok(Some(mut r))) if r.line.code.into_u16() == l.code => {
+                let req = sip_ua::invite::prack::create_prack(&dialog, &mut r, rseq);
+                send_created(endpoint, &dialog, req, keep, &mut obs.harness).await;
+                obs.early_created.push(WireMsg::parse(&bytes));
+            }
+            other => obs.harness.push(format!(
+                "peer sent {} inside the early dialog, transaction delivered {:?}",
+                l.code,
+                other.map(|r| r.map(|o| o.map(|r| r.line.code.into_u16())).map_err(|e| e.to_string()))
+            )),
+        }
+        rseq += 1;
+    }
+    for m in &e.methods {
+        let req = dialog.create_request(early_method_of(*m));
+        send_created(endpoint, &dialog, req, keep, &mut obs.harness).await;
+        obs.early_created.push(None);
+    }
+    settle().await;
+    Some(dialog)
+}
+
 pub fn run_uac(case: &UacCase) -> Observed {
     let case = case.clone();
     run_world(case.rng as u64, |clock| async move {
@@ -1620,7 +1903,14 @@ pub fn run_uac(case: &UacCase) -> Observed {
                 let mut final_resp = None;
                 let mut codes: Vec<u16> = case.peer_provisionals.clone();
                 codes.push(case.code);
+                let mut early_dialog: Option<Dialog> = None;
                 for code in codes {
+                    if code >= 200 {
+                        // ---- before the 2xx: the early dialog of another branch of the forked INVITE ----
+                        if let Some(e) = &case.early {
+                            early_dialog = early_dialog_flow(&endpoint, &tp, peer, &invite_wire, &mut cb, &mut tsx, e, &mut keep, &mut obs).await;
+                        }
+                    }
                     let bytes = if code >= 200 {
                         response_text(&invite_wire, code, Some(&case.to_tag), &extra)
                     } else {
@@ -1677,7 +1967,7 @@ pub fn run_uac(case: &UacCase) -> Observed {
                 obs.created = do_ops(&endpoint, &dialog, &case.ops, Some(&mut resp), &mut keep, &mut obs.harness).await;
                 settle().await;
                 if let (Some(f), Some(d2)) = (&case.fork, &fork_dialog) {
-                    obs.fork_start = Some(count_requests(&log) - n_invites);
+                    obs.fork_start = Some(count_requests(&log) - n_invites - obs.early_created.len());
                     for m in &f.methods {
                         let req = d2.create_request(method_of(*m));
                         send_created(&endpoint, d2, req, &mut keep, &mut obs.harness).await;
@@ -1689,6 +1979,7 @@ pub fn run_uac(case: &UacCase) -> Observed {
                 drop(keep);
                 drop(dialog);
                 drop(fork_dialog);
+                drop(early_dialog);
                 drop(tsx);
                 return obs;
             }
@@ -2173,6 +2464,81 @@ fn fault_classes(bye: bool, faults: &[SendFault], out: &mut CaseOut) {
     }
 }
 
+/// classes of an early dialog of another branch and of the provisional responses inside it (judged on the texts)
+fn early_classes(e: &EarlyDialog, out: &mut CaseOut) {
+    out.class("early-dialog-of-another-branch");
+    if e.reliable {
+        out.class("early-prack-for-the-dialog-creating-1xx");
+    }
+    if e.later.len() >= 2 {
+        out.class("early-2+-later-reliable-1xx");
+    }
+    if !e.methods.is_empty() || e.later.iter().any(|l| l.before.is_some()) {
+        out.class("early-other-requests-than-prack");
+    }
+    let uri_of = |v: &str| rd::parse_name_addr(v).and_then(|n| rd::split_uri(&n.uri));
+    for l in &e.later {
+        if l.contact == NO_CONTACT {
+            out.class("early-prack-for-later-1xx-without-contact");
+        } else {
+            match (uri_of(&early_contact_value(l.contact, &e.contact)), uri_of(&e.contact)) {
+                (Some(a), Some(b)) => {
+                    let same_addr = a.scheme == b.scheme && a.user == b.user && a.host == b.host && a.port == b.port;
+                    out.class(if a == b {
+                        "early-prack-for-later-1xx-with-the-dialog's-contact"
+                    } else if same_addr {
+                        "early-prack-for-later-1xx-contact-differs-in-uri-parameters-only"
+                    } else if a.host == b.host {
+                        "early-prack-for-later-1xx-contact-differs-in-user-or-port"
+                    } else {
+                        "early-prack-for-later-1xx-contact-unrelated"
+                    });
+                }
+                _ => out.class("early-contact-unreadable"),
+            }
+        }
+        let rr = early_rr_values(l.rr, &e.rr);
+        out.class(if rd::route_list_equal(&rr, &e.rr) {
+            "early-prack-for-later-1xx-with-the-dialog's-record-route"
+        } else {
+            "early-prack-for-later-1xx-with-another-record-route"
+        });
+    }
+}
+
+/// how the entries of a Record-Route list relate to their neighbours (judged on the texts)
+fn rr_relation_classes(rr: &[String], layout: u8, out: &mut CaseOut) {
+    let parts: Vec<Option<rd::UriParts>> = rr.iter().map(|v| rd::parse_name_addr(v).and_then(|n| rd::split_uri(&n.uri))).collect();
+    for i in 1..parts.len() {
+        for back in [1usize, 2] {
+            if back > i {
+                continue;
+            }
+            let (Some(a), Some(b)) = (&parts[i], &parts[i - back]) else { continue };
+            if a.host != b.host {
+                continue;
+            }
+            let same_addr = a.scheme == b.scheme && a.user == b.user && a.port == b.port;
+            if back == 2 {
+                if same_addr {
+                    out.class("rr-entries-one-apart-same-address");
+                }
+                continue;
+            }
+            out.class(if a == b {
+                "rr-adjacent-entries-identical-uri"
+            } else if same_addr {
+                "rr-adjacent-entries-differ-in-uri-parameters-only"
+            } else {
+                "rr-adjacent-entries-same-host-other-port/user/scheme"
+            });
+            if same_addr && (layout >> (i - 1)) & 1 == 0 {
+                out.class("rr-adjacent-same-address-entries-on-two-header-lines");
+            }
+        }
+    }
+}
+
 fn class_rr(n: usize) -> &'static str {
     match n {
         0 => "rr-0",
@@ -2185,6 +2551,7 @@ fn class_rr(n: usize) -> &'static str {
 
 fn common_classes(rr: &[String], layout: u8, contact: &str, ops: &Ops, out: &mut CaseOut) {
     out.class(class_rr(rr.len()));
+    rr_relation_classes(rr, layout, out);
     if rr.len() >= 2 && layout & ((1 << (rr.len() - 1)) - 1) != 0 {
         out.class("rr-comma-list");
     }
@@ -2462,7 +2829,10 @@ pub fn check_uac(case: &UacCase, out: &mut CaseOut) {
             return;
         }
     };
-    let after_invites: Vec<WireMsg> = all_reqs[n_invites..].to_vec();
+    // the requests created in the early dialog of another branch come first (before the 2xx arrived)
+    let n_early = obs.early_created.len().min(all_reqs.len() - n_invites);
+    let early_reqs: Vec<WireMsg> = all_reqs[n_invites..n_invites + n_early].to_vec();
+    let after_invites: Vec<WireMsg> = all_reqs[n_invites + n_early..].to_vec();
     // the requests of the second dialog of a forked INVITE come last
     let (reqs, fork_reqs): (Vec<WireMsg>, Vec<WireMsg>) = match obs.fork_start {
         Some(at) if at <= after_invites.len() => (after_invites[..at].to_vec(), after_invites[at..].to_vec()),
@@ -2470,16 +2840,18 @@ pub fn check_uac(case: &UacCase, out: &mut CaseOut) {
     };
     let refresh_n = if obs.refresh_after.is_some() { 2 } else { 0 };
     let want_n: usize = obs.created.sent + obs.terminate_sent as usize + refresh_n + obs.window_sent;
-    if (reqs.len() != want_n || fork_reqs.len() != obs.fork_sent) && obs.harness.is_empty() {
+    if (reqs.len() != want_n || fork_reqs.len() != obs.fork_sent || early_reqs.len() != obs.early_created.len()) && obs.harness.is_empty() {
         out.fail(
             "c11.harness/uac-request-count",
             format!(
-                "{} + {} requests after the INVITE on the wire, expected {} + {} ({:?})",
+                "{} + {} + {} requests after the INVITE on the wire, expected {} + {} + {} (early dialog + dialog + second dialog; {:?})",
+                early_reqs.len(),
                 reqs.len(),
                 fork_reqs.len(),
+                obs.early_created.len(),
                 want_n,
                 obs.fork_sent,
-                reqs.iter().chain(fork_reqs.iter()).map(|m| m.start.clone()).collect::<Vec<_>>()
+                early_reqs.iter().chain(reqs.iter()).chain(fork_reqs.iter()).map(|m| m.start.clone()).collect::<Vec<_>>()
             ),
         );
     }
@@ -2539,6 +2911,47 @@ pub fn check_uac(case: &UacCase, out: &mut CaseOut) {
         }
     }
 
+    // ---- the early dialog of another branch: same request, the 1xx that created it ----
+    if let (Some(e), Some(early_response)) = (&case.early, &obs.early_response) {
+        early_classes(e, out);
+        match RefDialog::from_wire(Role::Uac, &invite, early_response) {
+            Ok(de) => {
+                let mut found: Vec<(String, String)> = vec![];
+                let mut tr = CSeqTracker::new(&de);
+                tr.earlier_attempts = earlier.clone();
+                for (m, acked) in early_reqs.iter().zip(obs.early_created.iter()) {
+                    let ruri = m.request_uri().unwrap_or("");
+                    let route = m.list_values("route");
+                    // what the acknowledged response would make of the dialog if it (wrongly) were consulted
+                    let acked_target = acked.as_ref().and_then(|a| a.list_values("contact").first().and_then(|c| rd::parse_name_addr(c)).map(|n| n.uri));
+                    let acked_route: Option<Vec<String>> = acked.as_ref().map(|a| a.list_values("record-route").into_iter().rev().collect());
+                    for (locus, detail) in de.check_request(m) {
+                        // a PRACK that follows the response it acknowledges instead of the dialog state: a root
+                        // cause of its own, named so
+                        let locus = if locus == "request-uri" && acked_target.as_deref().map_or(false, |t| rd::uri_equal(ruri, t, rd::UriCtx::Full)) {
+                            "prack-request-uri-is-contact-of-acknowledged-1xx"
+                        } else if locus.starts_with("route-") && acked_route.as_ref().map_or(false, |r| rd::route_list_equal(&route, r)) {
+                            "prack-route-is-record-route-of-acknowledged-1xx"
+                        } else {
+                            locus
+                        };
+                        found.push((format!("c11.req/uac-{locus}"), format!("{} {detail}", m.start)));
+                    }
+                    for (locus, detail) in tr.next(m, None) {
+                        found.push((format!("c11.cseq/uac-{locus}"), format!("{} {detail}", m.start)));
+                    }
+                }
+                // one root cause, one signature: what already failed in the confirmed dialog is not repeated
+                for (sig, msg) in found {
+                    if !out.failures.iter().any(|o| o.sig == sig) {
+                        out.fail(sig.replacen("/uac-", "/uac-early-", 1), format!("early dialog (remote target {:?}, route set {:?}): {msg}", de.remote_target, de.route_set));
+                    }
+                }
+            }
+            Err(e) => out.fail("c11.harness/ref-dialog", format!("early dialog: {e}")),
+        }
+    }
+
     // ---- the second dialog of a forked INVITE: same request, its own 2xx ----
     if let (Some(f), Some(fork_response)) = (&case.fork, &obs.fork_response) {
         if obs.fork_start.is_some() {
@@ -2574,7 +2987,9 @@ pub fn check_uac(case: &UacCase, out: &mut CaseOut) {
         dialog.local_seq,
         dialog.route_set,
         dialog.remote_target,
-        reqs.iter()
+        early_reqs
+            .iter()
+            .chain(reqs.iter())
             .chain(fork_reqs.iter())
             .map(|m| format!("{} [CSeq {}]", m.start, m.header("cseq").unwrap_or("?")))
             .collect::<Vec<_>>()
@@ -2590,13 +3005,15 @@ pub fn property() -> Property {
     Property {
         fuzz: vec![],
         id: "C11",
-        rule: "cases = dialog-creating INVITE/2xx pairs (0..4 Record-Route values with distinct URIs, lr/other/header parameters, one or several header lines; random tags; Contact with URI and header parameters, display names, addr-spec form; From/To with display names) in both roles - UAS: peer INVITE injected, Dialog::new_server (directly with ServerInvTsx, or through Acceptor/Session), responses for provisional/2xx/failure codes through create_response; UAC: ClientDialogBuilder + send_invite, or Initiator/Session, 0..3 earlier attempts of the INVITE through the same builder that the peer rejects (401/407/422/3xx/other failures, with/without To-tag, optionally after an early dialog; the repeated INVITE optionally edited, its CSeq optionally raised through ClientDialogBuilder.local_cseq), then the peer answers 2xx, optionally a second 2xx from another fork branch (second dialog, 1..3 requests of its own) - through the Initiator optionally after an early dialog (1xx with the 2xx's To-tag, a Contact that is the 2xx's / differs from it only in URI parameters / in user or port / is unrelated, and a Record-Route list that is the 2xx's / its reverse / a prefix / a superset / absent / unrelated) - followed by 1..10 create_request calls over BYE/INFO/INVITE/PRACK/UPDATE/MESSAGE (optionally from 4 OS threads), Session::terminate, and the session-refresh re-INVITE + ACK; the Transport::send call of the terminate BYE (0..2 times in a row) or of the refresh re-INVITE optionally stays pending 1..400 ms and then fails (the application repeats terminate / process_default) or returns late, while other tasks create and send 0..3 requests on the shared dialog meanwhile and 0..2 before the repetition. Non-trivial = at least 2 Record-Route entries, or UAC role with a request after the INVITE, or a provisional (>100)/failure response; distinct by hash of the case.",
+        rule: "cases = dialog-creating INVITE/2xx pairs (0..4 Record-Route values, each a proxy of its own or related to its predecessor / the entry before it: identical URI, same address with other transport / other parameter, same host with other port / user / scheme; lr/other/header parameters, one or several header lines; random tags; Contact with URI and header parameters, display names, addr-spec form; From/To with display names) in both roles - UAS: peer INVITE injected, Dialog::new_server (directly with ServerInvTsx, or through Acceptor/Session), responses for provisional/2xx/failure codes through create_response; UAC: ClientDialogBuilder + send_invite, or Initiator/Session, 0..3 earlier attempts of the INVITE through the same builder that the peer rejects (401/407/422/3xx/other failures, with/without To-tag, optionally after an early dialog; the repeated INVITE optionally edited, its CSeq optionally raised through ClientDialogBuilder.local_cseq), then the peer answers 2xx, optionally a second 2xx from another fork branch (second dialog, 1..3 requests of its own) - through the Initiator optionally after an early dialog (1xx with the 2xx's To-tag, a Contact that is the 2xx's / differs from it only in URI parameters / in user or port / is unrelated, and a Record-Route list that is the 2xx's / its reverse / a prefix / a superset / absent / unrelated), through ClientDialogBuilder optionally (half) preceded by the early dialog of another fork branch (101-199 with its own To-tag, Contact, Record-Route; Dialog from create_dialog_from_response) with 0..3 further reliable provisional responses inside it (Contact = the dialog's / same address with other parameters, user or port / unrelated / none; Record-Route = the dialog's or another list), every reliable response acknowledged through invite::prack::create_prack(&dialog, &mut response, rseq), plus 0..5 other requests created in the early dialog, all judged against the dialog built from the INVITE and the 1xx that created it - followed by 1..10 create_request calls over BYE/INFO/INVITE/PRACK/UPDATE/MESSAGE (optionally from 4 OS threads), Session::terminate, and the session-refresh re-INVITE + ACK; the Transport::send call of the terminate BYE (0..2 times in a row) or of the refresh re-INVITE optionally stays pending 1..400 ms and then fails (the application repeats terminate / process_default) or returns late, while other tasks create and send 0..3 requests on the shared dialog meanwhile and 0..2 before the repetition. Non-trivial = at least 2 Record-Route entries, or UAC role with a request after the INVITE, or a provisional (>100)/failure response; distinct by hash of the case.",
         assumptions: vec![
             "requests and responses are read from the mock wire with the independent reader; the dialog is rebuilt by refmodel::ref_dialog from the texts only",
             "ezk's random tags / Call-ID / CSeq base are read back (wire, Dialog.local_fromto.tag), never predicted",
             "From/To URIs are generated without port/maddr/ttl/transport/lr/headers and compared modulo them (RFC 3261 Table 1)",
             "route entries without lr: the loose form (Request-URI = remote target, Route = route set) and the strict-routing rewrite are both accepted",
-            "display names and the Contact of created requests are not compared; requests are only created in CONFIRMED dialogs (what an early dialog may send belongs to C13); an early dialog appears only as the history of a session (Initiator) and of rejected attempts",
+            "display names and the Contact of created requests are not compared; requests are created in CONFIRMED dialogs and - ClientDialogBuilder flow - in the early dialog of a fork branch that never answers 2xx (its own To-tag, so it shares nothing but Call-ID and local tag with the confirmed dialog and has a CSeq sequence of its own); an early dialog that a 2xx confirms appears only as the history of a session (Initiator); which methods an early dialog may send belongs to C13",
+            "a provisional response inside an existing early dialog does not change that dialog's remote target or route set (RFC 3261 12.2.1.2: only a 2xx to a target refresh request does; 12.1.2: state is computed from the response that creates the dialog); responses are delivered by the INVITE client transaction in arrival order and acknowledged at once",
+            "Record-Route entries that repeat or resemble their neighbours are ordinary entries of the route set (RFC 3261 12.1.1/12.1.2 copy the list; RFC 5658 section 6 describes proxies recording themselves twice): Route must carry all of them",
             "a request whose Transport::send call failed never reached the peer: it is not part of the judged CSeq sequence (its number may be used again); requests the application's other tasks created meanwhile are sent at once through a TargetTransportInfo of their own, so the wire log holds every judged request in creation order",
             "after a failed send the application repeats the operation on the same Session (terminate() again; RefreshNeeded{session}.process_default() again - the struct and its field are pub); a failing send is a transient io::Error of a datagram transport",
             "the ACK for the 2xx of the dialog-creating INVITE is never produced by ezk's public API (create_ack is private and only used by RefreshNeeded::process_default): the ACK rule is checked on the session-refresh re-INVITE of a UAC-side Session",
